@@ -34,7 +34,7 @@ def main():
                 rc, out = sh(["git", "-C", f"{tmp}/repo", "apply", f"{VERIF}/benign/{bid}/patch.diff"])
                 if rc != 0:
                     print(out); print(f"HARNESS-ERROR: {bid}/patch.diff does not apply"); return 2
-                for prof in ("checked", "shipped", "dev"):
+                for prof in ("checked", "shipped", "dev", "aborting"):
                     rc, out = sh(["cargo", "build", "--offline", "--profile", prof], cwd=f"{tmp}/sim", env=env)
                     if rc != 0:
                         print(out[-2000:]); print(f"HARNESS-ERROR: build failed with {bid}"); return 2
